@@ -2509,3 +2509,37 @@ theorem dropXmlSpace_idem (s : Text) : dropXmlSpace (dropXmlSpace s) = dropXmlSp
   simp [dropXmlSpace, List.filter_filter]
 
 end SpyneModel
+
+namespace SpyneModel
+
+theorem decodeWith_encodeWith (e : BaEnc) (bs : List Nat) (h : bytesOk bs) : decodeWith e (encodeWith e bs) = some bs := by
+  cases e
+  · exact hexdec_hexenc bs h
+  · exact b64dec_b64enc false bs h
+  · exact b64dec_b64enc true bs h
+
+theorem advertisedLex_encodeWith (e : BaEnc) (bs : List Nat) (h : bytesOk bs) : advertisedLex e (encodeWith e bs) = true := by
+  cases e
+  · exact xsdHexBinary_hexenc bs h
+  · exact xsdBase64Binary_b64enc bs h
+  · rfl
+
+/-- a ByteArray that declares its encoding is written in it whatever the protocol suggests, the text is a literal
+    of the schema type that encoding advertises, and the same protocol reads it back -/
+theorem byteArray_declared (F : Facts08x) (hF : F.declaredBeatsSuggested = true) (e : BaEnc)
+    (suggested protoDefault : Option BaEnc) (bs : List Nat) (h : bytesOk bs) :
+    byteArrayToTextP F (some e) suggested protoDefault bs = some (encodeWith e bs) ∧
+    advertisedLex e (encodeWith e bs) = true ∧
+    byteArrayFromTextP (some e) suggested (encodeWith e bs) = some bs := by
+  refine ⟨by simp [byteArrayToTextP, pickWriteEncoding, hF], advertisedLex_encodeWith e bs h, ?_⟩
+  simp [byteArrayFromTextP, pickReadEncoding, decodeWith_encodeWith e bs h]
+
+/-- an undeclared ByteArray is written and read with the protocol's suggestion -/
+theorem byteArray_suggested (F : Facts08x) (e : BaEnc) (protoDefault : Option BaEnc) (bs : List Nat) (h : bytesOk bs) :
+    byteArrayToTextP F none (some e) protoDefault bs = some (encodeWith e bs) ∧
+    byteArrayFromTextP none (some e) (encodeWith e bs) = some bs := by
+  refine ⟨?_, by simp [byteArrayFromTextP, pickReadEncoding, decodeWith_encodeWith e bs h]⟩
+  unfold byteArrayToTextP pickWriteEncoding
+  split <;> simp
+
+end SpyneModel
